@@ -550,6 +550,11 @@ impl<'a> M<'a> {
                         let kind = match vf::unknown_fn_report(h, k) {
                             CustomReport::UnknownKey => PKind::UnknownKey { key: k.clone(), accepted: accepted.clone() },
                             CustomReport::Unexpected(m) => PKind::Unexpected { facts: vec![m], class: "custom" },
+                            CustomReport::Foreign(name, msg) => {
+                                // the hand-over of the function's own error type at the container IS the report
+                                self.report(PKind::Foreign { name: name.to_string(), msg }, loc);
+                                continue;
+                            }
                             CustomReport::Missing => unreachable!(),
                         };
                         self.report_plus(kind, loc, loc);
@@ -569,6 +574,10 @@ impl<'a> M<'a> {
                         let kind = match vf::missing_fn_report(mf, &f.key) {
                             CustomReport::Missing => PKind::Missing { field: f.key.clone() },
                             CustomReport::Unexpected(m) => PKind::Unexpected { facts: vec![m], class: "custom" },
+                            CustomReport::Foreign(name, msg) => {
+                                self.report(PKind::Foreign { name: name.to_string(), msg }, loc);
+                                continue;
+                            }
                             CustomReport::UnknownKey => unreachable!(),
                         };
                         self.report_plus(kind, loc, loc);
